@@ -209,6 +209,10 @@ func (fr *Frame) applyContract(ins ssa.Instruction, fc *FuncContract, callee *ss
 		}
 		vc.havocAll(st)
 	default:
+		if !fc.Pure {
+			// callee may allocate and initialise new objects
+			vc.allocHavoc(st)
+		}
 		for _, m := range fc.Modifies {
 			tg, err := env.modTargets(m)
 			if err != nil {
@@ -218,13 +222,6 @@ func (fr *Frame) applyContract(ins ssa.Instruction, fc *FuncContract, callee *ss
 			for _, t := range tg {
 				fr.havocTarget(st, t)
 			}
-		}
-		if !fc.Pure {
-			// callee may allocate
-			old := vc.stGet0(st, "$alloc")
-			na := vc.fresh("$alloc", "Int")
-			st.m["$alloc"] = na
-			vc.axiom(fmt.Sprintf("(>= %s %s)", na, old))
 		}
 	}
 	res := freshResults()
@@ -414,7 +411,7 @@ func (fr *Frame) builtin(ins ssa.Instruction, b *ssa.Builtin, c *ssa.CallCommon,
 			if d.sortOf(u) == "String" {
 				return []string{fmt.Sprintf("(str.len %s)", args[0])}
 			}
-			d.add("strlen", "(declare-fun strlen (Str) Int)\n(assert (forall ((s Str)) (! (>= (strlen s) 0) :pattern ((strlen s)))))")
+			d.strUFDecls()
 			return []string{fmt.Sprintf("(strlen %s)", args[0])}
 		case *types.Map:
 			_, _, card := d.mapHeaps(u)
